@@ -103,16 +103,21 @@ def portRange : List Port := List.range' 8000 1001
 def getUnusedPort (osFree : Port → Bool) (used : List Sock) (h : Host) : Option Port :=
   portRange.find? fun p => checkPortAvailable osFree used (h, p)
 
-/-- one iteration of the loop in `add_node` (manage_nodes.py:59-72) up to the `append` -/
-def reserve1 (osFree : Port → Bool) (used : List Sock) (spec : Option Host × Option Port) :
-    Except Outcome Sock :=
-  let h := match spec.1 with | none => "localhost" | some h => h
-  match spec.2 with
+/-- `if hostname is None: hostname = "localhost"` -/
+def hostOf (h : Option Host) : Host := match h with | none => "localhost" | some h => h
+
+/-- one iteration of the loop in `add_node` (manage_nodes.py:59-72) up to the `append`,
+hostname already defaulted -/
+def reservePort (osFree : Port → Bool) (used : List Sock) (h : Host) : Option Port → Except Outcome Sock
   | none =>
     match getUnusedPort osFree used h with
     | none => .error .noPort
     | some p => .ok (h, p)
   | some p => if checkPortAvailable osFree used (h, p) then .ok (h, p) else .error .inUse
+
+def reserve1 (osFree : Port → Bool) (used : List Sock) (spec : Option Host × Option Port) :
+    Except Outcome Sock :=
+  reservePort osFree used (hostOf spec.1) spec.2
 
 /-- the `(hostname, port)` arguments of `add_node`, `none` = not given -/
 structure Specs where
@@ -142,6 +147,11 @@ def Net.addNode (n : Net) (name : Name) (node : Node) (neighbors : Option (List 
 
 def Net.new : Net := ⟨none, []⟩
 
+/-- `self.networks[network_name]` if present, else a fresh `_NetworkConfig()` (manage_nodes.py:78-93) -/
+def netOrNew : Option Net → Net
+  | some n => n
+  | none => Net.new
+
 /-! ### the edits of `NetworksConfigConstructor` -/
 
 /-- `add_node` (manage_nodes.py:25-94): the three sockets are reserved one after the other,
@@ -149,24 +159,18 @@ each appended to `used_sockets` before the next is looked at; a refusal keeps th
 reservations made so far and leaves `networks` untouched. -/
 def addNode (osFree : Port → Bool) (c : Cfg) (name : Name) (net : Option Name) (sp : Specs)
     (neighbors : Option (List Name)) : Cfg × Outcome :=
-  let u0 := c.used
-  match reserve1 osFree u0 sp.app with
-  | .error e => ({ c with used := u0 }, e)
+  match reserve1 osFree c.used sp.app with
+  | .error e => (c, e)
   | .ok a =>
-    let u1 := u0 ++ [a]
-    match reserve1 osFree u1 sp.qnodeos with
-    | .error e => ({ c with used := u1 }, e)
+    match reserve1 osFree (c.used ++ [a]) sp.qnodeos with
+    | .error e => ({ c with used := c.used ++ [a] }, e)
     | .ok q =>
-      let u2 := u1 ++ [q]
-      match reserve1 osFree u2 sp.vnode with
-      | .error e => ({ c with used := u2 }, e)
+      match reserve1 osFree (c.used ++ [a] ++ [q]) sp.vnode with
+      | .error e => ({ c with used := c.used ++ [a] ++ [q] }, e)
       | .ok v =>
-        let u3 := u2 ++ [v]
-        let n0 := match aget (netName net) c.networks with
-          | some n => n
-          | none => Net.new
+        let n0 := netOrNew (aget (netName net) c.networks)
         ({ networks := aset (netName net) (n0.addNode name ⟨a, q, v⟩ neighbors) c.networks,
-           used := u3 }, .ok)
+           used := c.used ++ [a] ++ [q] ++ [v] }, .ok)
 
 /-- `remove_node` (manage_nodes.py:96-113, with the fix): node list, own topology entry and
 every neighbour list -/
